@@ -12,7 +12,7 @@ PROPERTY_ID = 'C13'
 LEVEL = 'exploration'
 RULE = ('fitted GaussianMultivariate (2..6 columns; generated Gaussian-copula table, n 40..600; marginal configuration '
         'class/FQN/instance/per-column dict over Gaussian, Uniform, KDE, TruncatedGaussian, Gamma; a separate class with a '
-        'constant column) x query batch of 1..40 rows (training rows, points in range, points 10x outside the range) x '
+        'constant column) x (fresh model | model fitted on another table and queried before) x query batch of 1..40 rows (training rows, points in range, points 10x outside the range) x '
         'container (DataFrame with permuted columns, ndarray C/F order, one-row Series, 1-d array) x row permutation. '
         'Oracle: own eigh-based MVN log-density and scipy/own MVN CDF on independently computed normal scores; '
         'monotonicity; row independence; container equivalence. Non-trivial: (d>=3 or some |rho|>=0.3) and a '
@@ -42,7 +42,8 @@ def strategy(constant):
             'bump_col': draw(st.integers(0, d - 1)), 'bump': draw(st.floats(0.0, 3.0)),
             'probe': draw(st.integers(0, 39)),
         }
-        return {'table': table, 'config': cfg, 'query': q}
+        # history: the same model object may have been fitted on another table and queried before
+        return {'table': table, 'config': cfg, 'query': q, 'prefit_seed': draw(st.one_of(st.none(), S.SEEDS))}
 
     return cases()
 
@@ -113,6 +114,14 @@ def oracle(case):
     d = len(names)
     q = case['query']
     model = M.build_gaussian(case['config'], names)
+    if case.get('prefit_seed') is not None:
+        rs0 = np.random.RandomState(case['prefit_seed'])
+        other = df.copy()
+        for c in names:      # same schema, different marginals and (shuffled) dependence
+            other[c] = rs0.permutation(other[c].to_numpy()) * rs0.uniform(0.5, 2.0) + rs0.normal()
+        value(model.fit, other, what='fit (earlier table)')
+        value(model.probability_density, other.head(3), what='probability_density (earlier fit)')
+        value(model.cumulative_distribution, other.head(2), what='cumulative_distribution (earlier fit)')
     value(model.fit, df.copy(), what='fit')
     C = model.correlation.to_numpy().astype(float)
     Q = queries(df, q)
@@ -127,7 +136,8 @@ def oracle(case):
     require(np.all(np.isfinite(pdf0)) and np.all(pdf0 >= 0), 'probability_density not finite / negative: %r' % pdf0[:5], tag='pdf-range')
     w = np.linalg.eigvalsh(C)
     well = w.min() > 1e-6
-    cls = ['d=%d' % d, 'container:' + q['container'], 'well-conditioned' if well else 'ill-conditioned']
+    cls = ['d=%d' % d, 'container:' + q['container'], 'well-conditioned' if well else 'ill-conditioned',
+           'refitted-model' if case.get('prefit_seed') is not None else 'fresh-model']
     if well:
         lp = mvn_logpdf(Z, C)
         mine = np.exp(lp)
